@@ -92,3 +92,17 @@ Example C12_example :
     (chain_fit [K; K] [@sam_init QN [1#2]; @sam_init QN [7#8]] [X; X] [0; 0; 1; 0]%nat 1 MTplus (0 : QN))
   = Some [[0; 0; 1; 0]; [0; 0; 1; 0]; [0; 1; 2; 0]]%nat.
 Proof. vm_compute. reflexivity. Qed.
+
+(* predict, level by level: the k-th level above the finest is the composition of the first k+1 layers' maps applied to
+   the finest B-side prediction (what map_deep computes), and there are as many levels as layers (wave-7 seed C08_7) *)
+From ART Require Import Deep_compose.
+Theorem C12_prediction_levels_are_composed_maps :
+  forall (N : Num) (rs : list (sam (N:=N))) cur up,
+    preds_up rs cur = Some up ->
+    forall k col, nth_error up k = Some col -> map_up (firstn (S k) rs) cur = Some col.
+Proof. exact @preds_up_is_composition. Qed.
+Theorem C12_prediction_has_one_level_per_layer :
+  forall (N : Num) (rs : list (sam (N:=N))) cur up, preds_up rs cur = Some up -> length up = length rs.
+Proof. exact @preds_up_length. Qed.
+Print Assumptions C12_prediction_levels_are_composed_maps.
+Print Assumptions C12_prediction_has_one_level_per_layer.
